@@ -103,6 +103,9 @@ class FrameChecker:
             inplace_op = isinstance(s.op, (ast.Add, ast.BitOr, ast.BitAnd, ast.Sub, ast.BitXor, ast.Mult))
             if isinstance(t, ast.Name) and not inplace_op:
                 env[t.id] = "old" if not isinstance(s.op, ast.RShift) else "fresh"  # `x >>= verb` re-binds x to the verb's (fresh) result
+            elif isinstance(t, ast.Name) and isinstance(s.value, ast.Constant) and isinstance(s.value.value, (int, float)) and not isinstance(s.value.value, bool):
+                # `x += <number>`: x is a number (a container would raise TypeError), so this re-binds x and mutates nothing
+                env[t.id] = "fresh"
             elif isinstance(t, ast.Name):
                 k = env.get(t.id, "old")
                 if k == "old":
